@@ -8,5 +8,6 @@ CONSTANTS
   MaxEvents = 4
   MaxPerTick = 2
   DrainAfterQuit = TRUE
-INVARIANTS DisplayedIsPartOfSent NothingLostWithoutCtrlO NoticesAlwaysDisplayed UnmutedAndUncancelledLosesNothing
+  ShowBeforeStop = TRUE
+INVARIANTS NoticeShownAtCompletion DisplayedIsPartOfSent NothingLostWithoutCtrlO NoticesAlwaysDisplayed UnmutedAndUncancelledLosesNothing
 CHECK_DEADLOCK FALSE
